@@ -142,10 +142,20 @@
 
 (define (list . l) l)
 
+; length walks the list with two cursors: `slow` advances one pair for every
+; two pairs of `fast`. The cursors can only meet on a circular list, which is
+; reported like any other argument that is not a proper list.
 (define (length list)
-    (cond
-      ((null? list) 0)
-      (else (+ (length (cdr list)) 1))))
+  (letrec
+   ((count
+     (lambda (fast slow n)
+       (cond
+         ((null? fast) n)
+         ((null? (cdr fast)) (+ n 1))
+         ((eq? (cdr (cdr fast)) (cdr slow)) (cdr 'circular-list))
+         (else (count (cdr (cdr fast)) (cdr slow) (+ n 2)))))))
+
+    (count list list 0)))
 
 (define (memq obj list)
     (cond
